@@ -12,7 +12,7 @@ var blanksGen = []string{" ", "", "  ", "\n", "\t", " /* c */ ", "\r\n", " -- x\
 var sepTokens = []string{" ", "\t", "\n", "\r", "=", ",", "[", ">", "<", "+", "-", "/", "|", "%"}
 var opTokens = []string{"&", "!", "~", "^", ";", "?", "@", "#", ":", "]", ".", ")", "(", "*", "$", "&&", "||", "<>", "!="}
 var quoteTokens = []string{"'", "\"", "''", "\"\"", "'a'", "\"b\"", "'$T.x'", "\"&T.*\"", "'it''s'", "'(*) VALUES ($T.*)'", "'\\'", "\"\\\"", "'x\\'", "\\", "\\'", "'a\x00b'", "\"\x00\"", "'\x00$T.x'", "`", "`a'b`", "`x`", "`$T.x`"}
-var commentTokens = []string{"--", "/*", "*/", "-- c\n", "/* $T.x */", "/**/", "/* ' */", "-- '\n", "/* (*) VALUES ($T.*) */", "-", "/", "*", "-- \x00 $T.x\n", "/* \x00 &T.* ' */", "-- \x00'\n", "/*c*/é", "/*c*/日", "/**/ñ"}
+var commentTokens = []string{"--", "/*", "*/", "-- c\n", "/* $T.x */", "/**/", "/* ' */", "-- '\n", "/* (*) VALUES ($T.*) */", "-", "/", "*", "-- \x00 $T.x\n", "/* \x00 &T.* ' */", "-- \x00'\n", "/*c*/é", "/*c*/日", "/**/ñ", "/** d **/", "/***/", "/*****/", "/* x **/", "/**\n * t\n **/", "/****/"}
 var kwTokens = []string{"AS", "as", "As", "VALUES", "values", "Values", "VALUEſ", "aſ", "AS&", "ASX", "SELECT", "FROM", "WHERE", "INSERT INTO t", "IN", "AND"}
 var nonASCII = []string{"é", "日本", "\xff", "\xc3", "\xe2\x82", "ſ", "K", " ", " ", "٣", "\xf0\x9f\x98\x80", "\xed\xa0\x80", "\xc0\xaf",
 	// characters that editors or other tools treat as line breaks or as invisible: only byte 10 ends a line
